@@ -215,7 +215,7 @@ def check_tags_multi(case):
         names = {"CH4": [0, 3, 4], "W": [1, 2]}
         resinfo = {"CH4": [("S", 1), ("B", 2), ("S", 3), ("B", 4)], "W": [("W", 1)]}
         for molname, (a, b) in (("CH4", (0, 4)), ("CH4", (3, 5)), ("W", (1, 3))):
-            for k1, k2 in itertools.permutations(kinds, 2):
+            for k1, k2 in itertools.product(kinds, repeat=2):     # also the same kind twice (for different residue names)
                 rn1, rn2 = ("S", "B") if molname == "CH4" else ("W", "W")
                 text = f"[ molecule ]\n{molname} {a} {b}\n" + kinds[k1][0].format(rn=rn1, s=1, t=4) + kinds[k2][0].format(rn=rn2, s=2, t=5)
                 top = copy.deepcopy(base)
@@ -237,7 +237,8 @@ def check_tags_multi(case):
                                 want[kinds[k2][1]] += 1
                         got = {k: len(mm.nodes[r].get(k, [])) for k in want}
                         if got != want:
-                            viols.append(dict(assertion="tag-selects-exactly-named-range", tags=["several-directive-kinds-in-one-block"],
+                            viols.append(dict(assertion="tag-selects-exactly-named-range",
+                                              tags=["several-directive-kinds-in-one-block"] + (["same-kind-twice"] if k1 == k2 else []),
                                               message=f"{text!r}: molecule {mi} residue {resid}{rn} has {got} expected {want}", case=case1, detail={}))
                 keys.append(f"mixed:{molname}:{k1}:{k2}")
     return viols, evals, keys
